@@ -357,13 +357,9 @@ fn read_u32(stream: &mut Bytes) -> Result<u32, Error> {
 #[derive(Debug, Clone)]
 pub struct V5;
 
-impl Protocol for V5 {
-    /// Reads a stream of bytes and extracts next MQTT packet out of it
-    fn read_mut(&mut self, stream: &mut BytesMut, max_size: usize) -> Result<Packet, Error> {
-        let fixed_header = check(stream.iter(), max_size)?;
-
-        // Test with a stream with exactly the size to check border panics
-        let packet = stream.split_to(fixed_header.frame_length());
+impl V5 {
+    /// Decodes one complete frame that has been taken off the stream
+    fn read_frame(fixed_header: FixedHeader, packet: BytesMut) -> Result<Packet, Error> {
         let packet_type = fixed_header.packet_type()?;
 
         if fixed_header.remaining_len == 0 {
@@ -437,6 +433,23 @@ impl Protocol for V5 {
         };
 
         Ok(packet)
+    }
+}
+
+impl Protocol for V5 {
+    /// Reads a stream of bytes and extracts next MQTT packet out of it
+    fn read_mut(&mut self, stream: &mut BytesMut, max_size: usize) -> Result<Packet, Error> {
+        let fixed_header = check(stream.iter(), max_size)?;
+
+        // Test with a stream with exactly the size to check border panics
+        let packet = stream.split_to(fixed_header.frame_length());
+
+        // The frame is complete and already taken off the stream: a reader that runs out of
+        // bytes inside it found a malformed packet, it must not ask the caller to wait for more
+        Self::read_frame(fixed_header, packet).map_err(|e| match e {
+            Error::InsufficientBytes(_) => Error::MalformedPacket,
+            e => e,
+        })
     }
 
     fn write(&self, packet: Packet, buffer: &mut BytesMut) -> Result<usize, Error> {
